@@ -5,15 +5,16 @@ cd /verif
 P=5; if [ "$1" = "-P" ]; then P=$2; shift 2; fi
 ids="$@"
 if [ -z "$ids" ]; then
-  ids=$(for d in /tmp/seed/out/C*/[0-9]*/ /tmp/seed/out2/C*/[0-9]*/ /tmp/seed/out3/C*/[0-9]*/ /tmp/seed/out4/C*/[0-9]*/; do p=$(basename $(dirname $d)); k=$(basename $d); case $d in */out4/*) echo $p-r4-$k;; */out3/*) echo $p-r3-$k;; */out2/*) echo $p-r2-$k;; *) echo $p-$k;; esac; done)
+  ids=$(for d in /tmp/seed/out/C*/[0-9]*/ /tmp/seed/out2/C*/[0-9]*/ /tmp/seed/out3/C*/[0-9]*/ /tmp/seed/out4/C*/[0-9]*/ /tmp/seed/out5/C*/[0-9]*/; do p=$(basename $(dirname $d)); k=$(basename $d); case $d in */out5/*) echo $p-r5-$k;; */out4/*) echo $p-r4-$k;; */out3/*) echo $p-r3-$k;; */out2/*) echo $p-r2-$k;; *) echo $p-$k;; esac; done)
 fi
 one() {
   id=$1; p=${id%%-*}; k=${id##*-}
-  case $id in *-r4-*) src=/tmp/seed/out4/$p/$k;; *-r3-*) src=/tmp/seed/out3/$p/$k;; *-r2-*) src=/tmp/seed/out2/$p/$k;; *) src=/tmp/seed/out/$p/$k;; esac
+  case $id in *-r5-*) src=/tmp/seed/out5/$p/$k;; *-r4-*) src=/tmp/seed/out4/$p/$k;; *-r3-*) src=/tmp/seed/out3/$p/$k;; *-r2-*) src=/tmp/seed/out2/$p/$k;; *) src=/tmp/seed/out/$p/$k;; esac
   [ -f $src/patch.diff ] || { echo "$id: no source"; return; }
   case $id in
     C07-3) checks=C07,C09;; C07-r2-3) checks=C07,C08;; C06-r2-1|C06-r2-3) checks=C06,C13;;
     C08-r3-2|C08-r3-3) checks=C08,C09;; C07-r3-2) checks=C07,C09;; C04-r3-3) checks=C04,C13;; C04-r3-1) checks=C04,C14;;
+    C08-r5-1) checks=C08,C09;; C18-r5-1) checks=C18,C09;; C19-r5-2) checks=C19,C10;;
     *) checks=$p;;
   esac
   python3 tools/seedtest.py $src --checks $checks > /tmp/final_$id.log 2>&1
